@@ -65,8 +65,8 @@ pub fn universe() -> Vec<MEvent> {
         g(0, 1, 100, vec![vec!["t", "x"]], 10),                 // 0 regular
         g(0, 10002, 100, vec![vec!["t", "x"]], 5),              // 1 replaceable v1
         g(0, 10002, 105, vec![vec!["t", "x"]], 6),              // 2 replaceable v2 (newer)
-        g(0, 30023, 100, vec![vec!["d", "x"], vec!["t", "y"]], 5), // 3 parameterised v1
-        g(0, 30023, 107, vec![vec!["d", "x"], vec!["t", "y"]], 7), // 4 parameterised v2
+        g(0, 30023, 100, vec![vec!["d", ""], vec!["t", "y"]], 5), // 3 parameterised v1 (the empty identifier, the usual default)
+        g(0, 30023, 107, vec![vec!["d", ""], vec!["t", "y"]], 7), // 4 parameterised v2
         g(1, 1, 103, vec![vec!["t", "x"], vec!["p", "q"]], 300), // 5 regular, other author
         g(0, 10002, 103, vec![vec!["t", "y"]], 4),              // 6 replaceable v1.5 (between 1 and 2)
     ];
@@ -822,6 +822,25 @@ impl Prop for C14 {
                         return out;
                     }
                 }
+            }
+        }
+        // at most one retrievable event per replaceable address, whatever the interleaving was
+        match w.retrievable() {
+            Ok(r) => {
+                let mut per: BTreeMap<(u16, String, String), usize> = BTreeMap::new();
+                for i in r {
+                    if let Some(a) = World::address_of(&u[i]) {
+                        *per.entry(a).or_insert(0) += 1;
+                    }
+                }
+                if let Some((a, n)) = per.iter().find(|(_, n)| **n > 1) {
+                    out.fail("C14:two-events-at-one-address", format!("after the concurrent run the address {}:{}..:{:?} holds {n} retrievable events", a.0, &a.1[..6], a.2));
+                    return out;
+                }
+            }
+            Err(e) => {
+                out.fail(format!("C14:observe-error:{e}"), "after the concurrent run");
+                return out;
             }
         }
         // final state of the concurrent run
